@@ -482,6 +482,9 @@ func (r *srep) Put(m *sse.Message, tp []string) (*sse.Message, error) {
 		panic("scripted replayer panic in Put")
 	case "err":
 		r.t.log(jev{"e": "put", "p": name, "v": "err", "id": "", "idset": false})
+		if len(name)%2 == 0 {
+			return m, errPut
+		}
 		return nil, errPut
 	}
 	o, err := r.inner.Put(m, tp)
@@ -671,11 +674,11 @@ func runSteered(idx int, c *steerCase, stats *steerStats) (evs []jev, blocked bo
 		wg.Add(1)
 		go func() {
 			defer wg.Done()
-			ctx, cc := context.WithCancel(context.WithValue(context.Background(), ctxKey{}, k))
+			ctx, cc := context.WithCancelCause(context.WithValue(context.Background(), ctxKey{}, k))
 			if ctxDone {
-				cc()
+				cc(errCause)
 			}
-			defer cc()
+			defer cc(nil)
 			down(k, ctx)
 		}()
 	}
